@@ -3,7 +3,6 @@ package transaction
 import (
 	"fmt"
 	"github.com/ovn-org/libovsdb/mapper"
-	"reflect"
 	"strings"
 	"time"
 
@@ -549,17 +548,6 @@ func (t *Transaction) waitRowsEqual(table string, sample model.Model, selected m
 			columns = append(columns, column)
 		}
 	}
-	value := func(info *mapper.Info, column string) (interface{}, error) {
-		v, err := info.FieldByColumn(column)
-		if err != nil {
-			return nil, err
-		}
-		// an unset set or map and an empty one are the same value
-		if rv := reflect.ValueOf(v); (rv.Kind() == reflect.Slice || rv.Kind() == reflect.Map) && rv.Len() == 0 {
-			return nil, nil
-		}
-		return v, nil
-	}
 	// matches[i][j]: selected row i agrees with expected row j on the columns it provides
 	var selectedInfos, expectedInfos []*mapper.Info
 	for _, m := range selected {
@@ -588,15 +576,21 @@ func (t *Transaction) waitRowsEqual(table string, sample model.Model, selected m
 			if _, provided := rows[j][column]; !provided {
 				continue
 			}
-			x, err := value(expectedInfos[j], column)
+			x, err := expectedInfos[j].FieldByColumn(column)
 			if err != nil {
 				return false, err
 			}
-			y, err := value(sel, column)
+			y, err := sel.FieldByColumn(column)
 			if err != nil {
 				return false, err
 			}
-			if !reflect.DeepEqual(x, y) {
+			// as the == of a condition: sets are unordered, an unset set or
+			// map and an empty one are the same value
+			equal, err := ovsdb.ConditionEqual.Evaluate(y, x)
+			if err != nil {
+				return false, err
+			}
+			if !equal {
 				return false, nil
 			}
 		}
